@@ -186,6 +186,41 @@ let run_line (line : string) =
          let update = next_bool () in
          let x = { x_cfg = cfg; x_schema = schema; x_doc = doc; x_dp = []; x_sp = []; x_update = update } in
          out_res (fun errs -> add "\"errors\":"; out_errors errs) (validate_ctx facts fuel x)
+     | "A" ->   (* validate(document, update=u, normalize=n) on a fresh validator: verdict, document, errors *)
+         let facts = parse_facts () in
+         let cfg = parse_config () in
+         let schema = dict_of (parse_value ()) in
+         let doc = dict_of (parse_value ()) in
+         let update = next_bool () in
+         let normalize = next_bool () in
+         out_res (fun o -> add "\"verdict\":"; add (if o.out_verdict then "true" else "false");
+                           add ",\"document\":"; out_value (VDict o.out_doc);
+                           add ",\"errors\":"; out_errors o.out_errs)
+           (api_validate facts fuel cfg schema doc update normalize)
+     | "N" ->   (* normalized(document, always_return_document=True) *)
+         let facts = parse_facts () in
+         let cfg = parse_config () in
+         let schema = dict_of (parse_value ()) in
+         let doc = dict_of (parse_value ()) in
+         out_res (fun o -> add "\"verdict\":"; add (if o.out_verdict then "true" else "false");
+                           add ",\"document\":"; out_value (VDict o.out_doc);
+                           add ",\"errors\":"; out_errors o.out_errs)
+           (api_normalized facts fuel cfg schema doc)
+     | "U" ->   (* pool function: kind name arg *)
+         let kind = next () in
+         let name = next_str () in
+         let arg = parse_value () in
+         let ou r = (match r with
+                     | None -> add "\"unknown\""
+                     | Some (UOk v) -> add "{\"ok\":"; out_value v; add "}"
+                     | Some (URaise e) -> add "{\"raise\":"; json_string (exn_name e); add "}") in
+         (match kind with
+          | "coerce" -> ou (pool_coerce name arg)
+          | "setter" -> ou (pool_setter name (dict_of arg))
+          | "check" -> (match pool_check name arg with
+                        | None -> add "\"unknown\""
+                        | Some l -> add "["; sep_iter (fun m -> json_string (implode m)) l; add "]")
+          | _ -> add "null")
      | "T" ->   (* build both trees from an error forest *)
          let n = next_int () in
          let errs = rep n parse_error in
